@@ -61,6 +61,12 @@ RouteVerdictF(t, o) ==
   IF \E ij \in {<<2, 3>>, <<1, 3>>, <<1, 2>>} :
         ~Near(BMul(BMul(o.cosang[AngIdx(ij[1], ij[2])], o.len[ij[1]]), o.len[ij[2]]), BMul(g[ij[1]][ij[2]], P2), BMul(S2, P1), t.cI)
      THEN "Angles" ELSE
+  \* the parameter vector (lengths, angles in degrees) is the one of the cell: lengths or angles less than 1e-6 apart may be
+  \* reported as equal (documented tidying), nothing coarser: 2e-6 on lengths, 5e-8 on the sines and cosines (2e-6 degrees)
+  IF ~(IsBVec(o.plen, 3) /\ IsBVec(o.pcos, 3) /\ IsBVec(o.psin, 3) /\ IsBVec(o.sinang, 3)) THEN "Shape" ELSE
+  IF \E i \in Ix : \/ ~BLe(BMulInt(BAbs(BSub(o.plen[i], o.len[i])), 500000), P1)
+                    \/ ~BLe(BMulInt(BAbs(BSub(o.pcos[i], o.cosang[i])), 20000000), P1)
+                    \/ ~BLe(BMulInt(BAbs(BSub(o.psin[i], o.sinang[i])), 20000000), P1) THEN "Parameters" ELSE
   \* volume = det(direct) > 0 and volume^2 = det(metric)
   IF ~(BSign(o.vol) > 0 /\ Near(BMul(o.vol, P2), B3Det(o.D), BMul(B3Det(o.D), BI(1)), t.cI)) THEN "VolumeIsDet" ELSE
   IF ~Near(BMul(BMul(o.vol, o.vol), P1), B3Det(g), B3Det(g), 4 * t.cI) THEN "Volume" ELSE
